@@ -489,6 +489,15 @@ def main():
                 # giving up on an upstream that takes this long is the server's right; one response is what counts
                 leg.cls("%s|%s|%s|servfail" % (transport, lname, kind))
                 continue
+            if pl.kind == "drop" and pl.drops >= 3 and pr.rcode == SERVFAIL and ntx > pl.drops:
+                # the first three transmissions were lost, the server sent a fourth and the upstream answered that one: whether
+                # the answer is still in time hangs on the server's patience after its LAST transmission (its choice, the
+                # bounded-time clause) and on how long this rig's upstream thread took to answer on a loaded machine (seen
+                # once: thorough tier next to two other thorough runs).  One response, its own, a server failure: not judged
+                # further.  With fewer losses the server has another attempt left and must deliver the answer.
+                leg.count("drop3_server_gave_up_after_its_last_transmission_servfail", 1)
+                leg.cls("%s|%s|%s|servfail-after-last-transmission" % (transport, lname, kind))
+                continue
             if pr.rcode != 0 or want not in got:
                 leg.cls("%s|%s|%s|wrong-answer" % (transport, lname, kind))
                 sig = "C07/not-its-own-answer/%s/%s" % (transport, kind if not kind.startswith("drop") else "drop")
